@@ -62,7 +62,12 @@ impl FlowMetrics {
     }
 
     fn pending_inc(&self) {
-        let pending = self.pending_batches.fetch_add(1, Ordering::Relaxed) + 1;
+        // A receiver can record its batch before the sender has recorded the send, so the counter
+        // may transiently sit below zero (wrapped): add without an overflow check.
+        let pending = self
+            .pending_batches
+            .fetch_add(1, Ordering::Relaxed)
+            .wrapping_add(1);
         loop {
             let current_peak = self.peak_pending.load(Ordering::Relaxed);
             if pending <= current_peak {
